@@ -4,9 +4,12 @@
    seen through database c (find, get_node, define children in order) rendered back to source
    level (bodies rebuilt from the body nodes, the shared AD body inlined, node numbers and
    group ids dropped); `fuel` bounds the rendering depth and is universally quantified.
-   gm is the AD group-id rule (GLocal = code as it is, GGlobal = repaired): the theorems hold for both. *)
+   gm is the AD group-id rule (GLocal = `len(self.__nodes)`, the rule before commit 4d38dc0; GGlobal =
+   `len(self)`, the code as it is): the theorems hold for both unless they say GGlobal.
+   get_node is the repaired lookup (commit 52826ef): `resolve` applies the redirects of the whole parent
+   chain, oldest database first. *)
 From Coq Require Import List Arith Bool NArith.
-From PL.C29 Require Import ModelClauseDB ProofsBase ProofsInv ProofsStmt ProofsAD ProofsHist.
+From PL.C29 Require Import ModelClauseDB ProofsBase ProofsInv ProofsStmt ProofsAD ProofsHist ProofsRedir.
 Import ListNotations.
 
 (* DESIGN: abs (fold add cs (extend (prepare P))) = abs (prepare (P ++ cs)), per user predicate,
@@ -68,10 +71,74 @@ Theorem C29_extend_view : forall c i s, chain_ok c ->
 Proof. exact extend_view. Qed.
 Print Assumptions C29_extend_view.
 
-(* NOT proved (see notes/C29.md): C29_redirect_sound (call nodes of the parent seen through the child
-   resolve to the extended definition).  It is FALSE for the code as it is at depth >= 3
-   (Findings.v: C29_nested_redirect_refuted); at depth <= 2 it is checked on every sampled history by
-   evaluating `call_resolves` in the model (whose tables are compared with the implementation's). *)
+(* DESIGN: C29_redirect_sound.  For every history of adds and (arbitrarily nested) extends from the
+   empty root: let d be the youngest database (q = []) or any of its ancestors (q = the younger
+   layers).  Every call node of ANY layer of d - in particular the call nodes of d's ancestors - read
+   through d, points (after the redirects of the whole chain) at the node the heads table of d gives
+   for the called predicate, i.e. at the define node whose children are exactly the definition list
+   `abs` shows for that predicate seen through d: calls see the extended definition. *)
+Theorem C29_redirect_sound : forall gm ops q d i f a dn,
+  run gm ops root0 = q ++ d ->
+  get_node d i = NCall (FU f) a dn ->
+  exists h, get_head d (FU f, length a) = Some h /\ resolve d dn = h /\ get_node d dn = get_node d h /\
+            forall fuel, map (render_clause fuel d) (define_children (get_node d dn)) = abs fuel d (FU f, length a).
+Proof. exact redirect_sound. Qed.
+Print Assumptions C29_redirect_sound.
+
+(* the boolean the tie evaluates on every node of every sampled database is a theorem *)
+Theorem C29_call_resolves : forall gm ops i, call_resolves (run gm ops root0) i = true.
+Proof. exact call_resolves_reachable. Qed.
+Print Assumptions C29_call_resolves.
+
+(* ... so a call of the parent program, evaluated in the extension, runs the clauses of the union
+   program (parent's clauses first, then the added ones) *)
+Theorem C29_calls_see_union : forall gm P cs i f a dn fuel,
+  Forall (fun st => sdepth st < fuel) (P ++ cs) ->
+  get_node (adds gm cs (extend (adds gm P root0))) i = NCall (FU f) a dn ->
+  map (render_clause fuel (adds gm cs (extend (adds gm P root0))))
+      (define_children (get_node (adds gm cs (extend (adds gm P root0))) dn))
+  = spec (P ++ cs) (FU f, length a).
+Proof. exact calls_see_union. Qed.
+Print Assumptions C29_calls_see_union.
+
+(* AD group ids.  `tagsz gm ops c` = the statements of the history (extends dropped), each with the
+   group id _compile gives it at that moment; `grp c s` = for each clause of the definition list of s
+   seen through c the triple (group of the clause node, group in its choice call, group of the choice
+   node that call reaches) or None for a clause that is no AD alternative.
+   For EVERY history (any nesting depth, either rule): all alternatives of one AD statement carry that
+   statement's id, consistently in the three places, and nothing else carries an id. *)
+Theorem C29_history_groups : forall gm ops s, is_user s ->
+  grp (run gm ops root0) s = specGs (tagsz gm ops root0) s.
+Proof. exact history_groups. Qed.
+Print Assumptions C29_history_groups.
+
+(* Freshness under the rule `group = len(self)`: two different AD statements of a history - added to
+   the same database or to different databases of the chain - never get the same group id. *)
+Theorem C29_group_ids_fresh : forall ops, NoDup (ad_tags (tagsz GGlobal ops root0)).
+Proof. intros ops. apply ad_tags_fresh. discriminate. Qed.
+Print Assumptions C29_group_ids_fresh.
+
+(* abs with the group ids kept *)
+Theorem C29_history_abs_g : forall gm ops fuel s, is_user s ->
+  abs_g fuel (run gm ops root0) s = combine (specFs fuel (stmts_of ops) s) (specGs (tagsz gm ops root0) s).
+Proof. exact history_abs_g. Qed.
+Print Assumptions C29_history_abs_g.
+
+(* extend-then-add = prepare-the-union ALSO for the partition of the choices into groups: both are the
+   source-level clause list of P ++ cs in which every AD statement is tagged with one group id, and in
+   both different AD statements have different ids (the ids themselves may differ: the extension
+   copies define nodes, which shifts node numbers). *)
+Theorem C29_extend_union_groups : forall P cs,
+  exists tz1 tz2 : list (stmt * nat),
+    map fst tz1 = P ++ cs /\ map fst tz2 = P ++ cs /\
+    NoDup (ad_tags tz1) /\ NoDup (ad_tags tz2) /\
+    forall fuel s, is_user s ->
+      abs_g fuel (adds GGlobal cs (extend (adds GGlobal P root0))) s
+        = combine (specFs fuel (P ++ cs) s) (specGs tz1 s) /\
+      abs_g fuel (adds GGlobal (P ++ cs) root0) s
+        = combine (specFs fuel (P ++ cs) s) (specGs tz2 s).
+Proof. exact extend_union_groups. Qed.
+Print Assumptions C29_extend_union_groups.
 
 (* ---------------------------------------------------------------- non-vacuity *)
 Definition p_ : N := 5.  Definition q_ : N := 6.  Definition r_ : N := 7.  Definition a_ : term := [2; 20; 0]%N.
@@ -100,3 +167,38 @@ Proof. vm_compute. discriminate. Qed.
 Example C29_ex_parent_sees_only_its_own :
   abs 9 (parent_of (adds GLocal exCs (extend (adds GLocal exP root0)))) (FU p_, 1) = [RFact [a_] (Some 3%N)].
 Proof. vm_compute. reflexivity. Qed.
+
+(* depth 3: the root calls p, the child and the grandchild both extend p, all three add an AD *)
+Definition ad3 (f g : N) : stmt := SAD [(f, [], 1%N); (g, [], 2%N)] (BBuiltin 4 [] 1) 0.
+Definition ops3 : list op :=
+  [ OAdd (SClause r_ [] (BCall p_ []) 0);          (* r :- p.   call node 1, p still undefined *)
+    OAdd (ad3 p_ q_);
+    OExtend; OAdd (SFact p_ [] None); OAdd (ad3 q_ p_);
+    OExtend; OAdd (SFact p_ [] (Some 1%N)); OAdd (ad3 p_ q_) ].
+
+Example C29_ex_depth3_call_sees_grandchild_definition :
+  let c := run GGlobal ops3 root0 in
+  length c = 3 /\ get_node c 1 = NCall (FU p_) [] 0 /\
+  length (l_redir (nth 0 c empty_layer)) = 2 /\ length (l_redir (nth 1 c empty_layer)) = 2 /\
+  (exists k v w, In (k, v) (l_redir (nth 1 c empty_layer)) /\ In (v, w) (l_redir (nth 0 c empty_layer))
+                 /\ resolve c k = w /\ resolve (tl c) k = v) /\
+  length (define_children (get_node c 0)) = 5 /\
+  map (render_clause 9 c) (define_children (get_node c 0)) = spec (stmts_of ops3) (FU p_, 0) /\
+  (* through the parent (child database) the same call sees 3 clauses, through the root 1 *)
+  length (define_children (get_node (tl c) 0)) = 3 /\ length (define_children (get_node (tl (tl c)) 0)) = 1.
+Proof. vm_compute. repeat split; try reflexivity. exists 0, 19, 35. vm_compute. repeat split; auto. Qed.
+
+Example C29_ex_depth3_groups :
+  let c := run GGlobal ops3 root0 in
+  (exists g1 g2 g3, ad_tags (tagsz GGlobal ops3 root0) = [g1; g2; g3] /\ g1 <> g2 /\ g2 <> g3 /\ g1 <> g3 /\
+     grp c (FU p_, 0) = [Some (g1, g1, g1); None; Some (g2, g2, g2); None; Some (g3, g3, g3)] /\
+     grp c (FU q_, 0) = [Some (g1, g1, g1); Some (g2, g2, g2); Some (g3, g3, g3)])
+  /\ NoDup (ad_groups c)
+  (* under the old local rule the three ADs of the three layers collide pairwise or not at all by accident *)
+  /\ ~ NoDup (ad_tags (tagsz GLocal ops3 root0)).
+Proof.
+  vm_compute. split; [|split].
+  - do 3 eexists. repeat split; try reflexivity; discriminate.
+  - repeat constructor; simpl; intuition discriminate.
+  - intros H. inversion H as [|x l Hn H1]; subst. inversion H1 as [|y l' Hn' _]; subst. apply Hn'. left. reflexivity.
+Qed.
